@@ -384,6 +384,9 @@ IMPLICIT_SITES = [
      "class_path: discard_init_args_on_class_path_change / prev_val.init_args assume a subclass-typed option",
      {"shape": "basic", "entry": "parse_args",
       "input": ["--any={class_path: calendar.Calendar, init_args: {firstweekday: 1}}", "--any={class_path: nomod.X}"]}),
+    ("_loaders_dumpers.json_load", "builtins.RecursionError",
+     "[deep] parser_mode='json': json.loads itself exhausts the stack on a few thousand nested brackets",
+     {"shape": "json", "entry": "parse_string", "input": "[" * 3000 + "]" * 3000}),
     ("_loaders_dumpers.json_load", VE,
      "parser_mode='json': an integer literal longer than CPython's 4300-digit int<->str limit makes json.loads raise a plain ValueError "
      "(not JSONDecodeError), which get_loader_exceptions('json') does not anticipate",
@@ -460,7 +463,8 @@ FINDING_SITES = {
     "append-without-parser-context": [("_typehints.adapt_typehints", AE, "implicit", "tf")],
     "nargs-choices-scalar": [("_core.ArgumentParser._check_value_key", "builtins.AssertionError", "implicit", "tf")],
     "deep-nesting-recursion": [("_loaders_dumpers._has_reference_cycle", "builtins.RecursionError", "implicit: [deep]", "tf"),
-                               ("_namespace.recreate_branches", "builtins.RecursionError", "implicit: [deep]", "tf")],
+                               ("_namespace.recreate_branches", "builtins.RecursionError", "implicit: [deep]", "tf"),
+                               ("_loaders_dumpers.json_load", "builtins.RecursionError", "implicit: [deep]", "tf")],
     "closed-stdin-dash": [("_util.Path.get_content", AE, "implicit", "tf")],
     "subcommand-value-not-mapping": [("_actions._ActionSubCommands.handle_subcommands", AE, "implicit: [subcommand]", "tf"),
                                      ("_core.ArgumentParser.merge_config", AE, "implicit: [subcommand]", "tf"),
